@@ -1,5 +1,7 @@
 (* C18 - the device list mirrors the address claims seen on the bus (and the device-list half of C07).
-   Only statements (fixed in Spec/DevListSpec.v) and their closing lemma; nothing else lives here. *)
+   Only statements (fixed in Spec/DevListSpec.v) and their closing lemma; nothing else lives here.
+   The full-strength product information statement (info_prod_stmt) is refuted by the known finding "parked-device"; the restricted
+   statement info_prod_partial_stmt (no displaced device returns to the slot the list kept it in) is proved instead. *)
 From Coq Require Import ZArith List.
 From N2kV Require Import Base.Res Model.DevListDefs Spec.DevListSpec Proofs.DevListProofs.
 Import ListNotations.
@@ -8,3 +10,43 @@ Local Open Scope Z_scope.
 Theorem C18_heap_safe : heap_safe_stmt.
 Proof. exact heap_safe. Qed.
 Print Assumptions C18_heap_safe.
+
+Theorem C18_one_entry_per_name : one_entry_per_name_stmt.
+Proof. exact one_entry_per_name. Qed.
+Print Assumptions C18_one_entry_per_name.
+
+Theorem C18_lookup_agrees : lookup_agrees_stmt.
+Proof. exact lookup_agrees. Qed.
+Print Assumptions C18_lookup_agrees.
+
+Theorem C18_info_lists : info_lists_stmt.
+Proof. exact info_lists. Qed.
+Print Assumptions C18_info_lists.
+
+Theorem C18_info_prod_partial : info_prod_partial_stmt.
+Proof. exact info_prod_partial. Qed.
+Print Assumptions C18_info_prod_partial.
+
+Theorem C18_info_prod_refuted : ~ info_prod_stmt.
+Proof. exact info_prod_refuted. Qed.
+Print Assumptions C18_info_prod_refuted.
+
+Theorem C18_updated_flag : updated_flag_stmt.
+Proof. exact updated_flag. Qed.
+Print Assumptions C18_updated_flag.
+
+(* non-vacuity: a history with a takeover and the return of the displaced device satisfies the hypothesis of the restricted statement,
+   its mirror holds both devices, and the list answers for them *)
+Example C18_nonvacuous :
+  no_return nv_hist init_state [] /\
+  map (fun d => (a_name d, a_src d)) (s_run nv_hist []) = [(4660, 5); (13907095858110791681, 10)] /\
+  (exists st, run nv_hist init_state = Ok st /\ by_name st 4660 = Ok (Some 5) /\ by_name st 13907095858110791681 = Ok (Some 10) /\
+     exists e, entry_at st 5 = Ok (Some e) /\ e_pi e = s_reported (match s_prod wit_piB with Some p => p | None => pi_clear end) /\
+               pgn_list (e_tx e) = Ok (Some [126464; 126996])).
+Proof.
+  split; [exact nv_no_return|]. split; [vm_compute; reflexivity|].
+  destruct (run nv_hist init_state) as [st| |] eqn:E; [|vm_compute in E; discriminate|vm_compute in E; discriminate].
+  exists st. split; [reflexivity|]. vm_compute in E. injection E as <-. split; [vm_compute; reflexivity|]. split; [vm_compute; reflexivity|].
+  eexists. split; [vm_compute; reflexivity|]. split; vm_compute; reflexivity.
+Qed.
+Print Assumptions C18_nonvacuous.
